@@ -39,6 +39,10 @@ CHECKS = {
                 text="Under the assumed contract of pydantic (validation by a model == validation against the schema generated from that model) the property 'for all documents: accepted by the Python decoder iff accepted by the published schema' reduces to a closed ground statement: the four schema documents generated by the repository's own scripts/generate_schema.py from the current models (strict/lax x HUGR/testing, each bundling extension and package) equal the published files as JSON values after a stated normal form (key order; additionalProperties:true == absent), and the version string of the models equals the one in the file names. That statement is decided by evaluation on every run; any difference is reported with its JSON pointer. No code contract is involved, hence category other.",
                 note="pydantic's model<->schema correspondence assumed; normal-form rules listed in the evidence; generation runs the real script against the working tree's models.",
                 technique="ground decision of a closed equality (generated vs published schema after normal form); contract reduction through pydantic's assumed model/schema correspondence"),
+    "C15": dict(cat="other", design="5/C15",
+                text="Proved from the real source of build/tracked_dfg.py for all tables, commands and metadata: track_wire appends and returns the new slot (no freed slot is ever reused), tracked_wire / untrack_wire denote the most recent wire at the index (Python index meaning) and raise IndexError exactly for untracked indices leaving the table unchanged, TrackedDfg.add makes exactly the call the explicit program makes (same operation, the wires tracked at the integer arguments in argument order, other wires as given, the same metadata - a genuine defect here was repaired) and rebinds exactly the named slots to the new node's output at the argument position (loop invariant over a ghost 'last naming position'), set_indexed_outputs passes the resolved wires in order. track_wires / track_inputs / __init__ / set_tracked_outputs / extend and the node-for-node, link-for-link comparison of the tracked and the explicit HUGR are decided by a bounded run of the real builders against the explicit program and a shadow table - not proved; hence category other.",
+                note=TRUST + "; DfBase.add_op and Dfg.set_outputs trusted as call recorders (ghost trace); wires restricted to Node | OutPort values.",
+                technique="contract-based deductive verification (postconditions over the table view + ghost call trace, loop invariant with a ghost recursion), z3 cross-checked by z3-4.8.12/cvc5; bounded differential run for the remaining entry points"),
     "C04": dict(cat="other", design="5/C04",
                 text="The graph store is verified against a sequence-per-port view: sub-offset allocation, add_link (the link is appended exactly once to the sequences of both ports; BiMap inverse and contiguity invariants preserved; counts = max), add_order_link (idempotent; order ports are not counted), linked_ports / has_link / order-link listings / outgoing_links / incoming_links as functions of the view (one entry per port whatever the rest of the graph holds), lookup (KeyError exactly for non-live indices), iteration (live indices ascending), counts, children, add_node / add_const (new index was free, every other node keeps index and data), _update_port_count. delete_link, delete_node and insert_hugr are decided by a bounded model-based run of the real code against the sequential multigraph model of the statement (all queries compared after every operation) - not proved; hence category other. Three genuine defects were found and repaired.",
                 note=TRUST + "; BiMap through its C18 contracts; ghost cnt defined by an assumed instance; generator functions eager; _add_node verified in the thorough tier only.",
